@@ -23,6 +23,7 @@ def quiet():
     import logging
     logging.getLogger("nbdime").setLevel(logging.CRITICAL)
     logging.getLogger().setLevel(logging.CRITICAL)
+    logging.getLogger("traitlets").setLevel(logging.CRITICAL)
 
 
 def reset_state():
